@@ -621,7 +621,8 @@ func c25CompareSnap(c *kit.Case, blk int, what string, got types.RecentBlocks, s
 		}
 		for j := range w.Reported {
 			if g.Reported[j] != w.Reported[j] {
-				c.Failf("block %d: %s: entry %d package %d changed from %x to %x", blk, what, i, j, w.Reported[j].Hash, g.Reported[j].Hash)
+				c.Failf("block %d: %s: entry %d package %d changed from (%x, %x) to (%x, %x)", blk, what, i, j,
+					w.Reported[j].Hash, w.Reported[j].ExportsRoot, g.Reported[j].Hash, g.Reported[j].ExportsRoot)
 			}
 		}
 	}
@@ -670,10 +671,11 @@ func c25ComparePost(c *kit.Case, blk int, tag string, post types.RecentBlocks, m
 // never copies) and hands out beta-dagger and the posterior beta exactly as the
 // implementation produced them.
 type c25Path interface {
-	prime(prior types.RecentBlocks) // start of a case
-	prior() types.RecentBlocks      // the prior state as it is held now
-	apply(bt c25Built) (types.BlocksHistory, types.RecentBlocks, error)
-	commit(post types.RecentBlocks) // posterior becomes prior (shallow, as ChainState.StateCommit does)
+	prime(prior types.RecentBlocks)                 // start of a case
+	prior() types.RecentBlocks                      // the prior state as it is held now
+	dagger(bt c25Built) types.BlocksHistory         // 4.6: beta-dagger as produced
+	finish(bt c25Built) (types.RecentBlocks, error) // 4.7: posterior beta as produced
+	commit(post types.RecentBlocks)                 // posterior becomes prior (shallow, as ChainState.StateCommit does)
 }
 
 // store level: the sequence stf.RunSTF uses around this package
@@ -686,37 +688,45 @@ func (p *c25StorePath) prime(prior types.RecentBlocks) {
 	p.cs.GetPriorStates().SetBeta(prior)
 }
 func (p *c25StorePath) prior() types.RecentBlocks { return p.cs.GetPriorStates().GetBeta() }
-func (p *c25StorePath) apply(bt c25Built) (types.BlocksHistory, types.RecentBlocks, error) {
+func (p *c25StorePath) dagger(bt c25Built) types.BlocksHistory {
 	p.cs.AddBlock(bt.blk)
 	STFBetaH2BetaHDagger()
-	dag := p.cs.GetIntermediateStates().GetBetaHDagger()
+	return p.cs.GetIntermediateStates().GetBetaHDagger()
+}
+func (p *c25StorePath) finish(bt c25Built) (types.RecentBlocks, error) {
 	p.cs.GetPosteriorStates().SetLastAccOut(bt.theta)
 	if err := STFBetaHDagger2BetaHPrime(); err != nil {
-		return dag, types.RecentBlocks{}, err
+		return types.RecentBlocks{}, err
 	}
 	post := p.cs.GetPosteriorStates().GetBeta()
 	// fresh posterior state for the next block (the prior state is left as it is)
 	p.cs.GetPosteriorStates().SetState(blockchain.NewPosteriorStates().GetState())
-	return dag, post, nil
+	return post, nil
 }
 func (p *c25StorePath) commit(post types.RecentBlocks) { p.cs.GetPriorStates().SetBeta(post) }
 
 // function level: the package's functions composed the way STFBetaH2BetaHDagger +
 // STFBetaHDagger2BetaHPrime compose them; the header hash handed to NewItem is the
 // model's (computing it is not this package's business).
-type c25FuncPath struct{ cur types.RecentBlocks }
+type c25FuncPath struct {
+	cur types.RecentBlocks
+	dag types.BlocksHistory
+}
 
 func (p *c25FuncPath) prime(prior types.RecentBlocks) { p.cur = prior }
 func (p *c25FuncPath) prior() types.RecentBlocks      { return p.cur }
-func (p *c25FuncPath) apply(bt c25Built) (types.BlocksHistory, types.RecentBlocks, error) {
-	dag := History2HistoryDagger(p.cur.History, bt.blk.Header.ParentStateRoot)
+func (p *c25FuncPath) dagger(bt c25Built) types.BlocksHistory {
+	p.dag = History2HistoryDagger(p.cur.History, bt.blk.Header.ParentStateRoot)
+	return p.dag
+}
+func (p *c25FuncPath) finish(bt c25Built) (types.RecentBlocks, error) {
 	ser, err := serLastAccOut(bt.theta)
 	if err != nil {
-		return dag, types.RecentBlocks{}, err
+		return types.RecentBlocks{}, err
 	}
 	belt, commitment := AppendAndCommitMmr(p.cur.Mmr, lastAccOutRoot(ser))
 	item := NewItem(types.HeaderHash(bt.hh), MapWorkReportFromEg(bt.blk.Extrinsic.Guarantees), commitment)
-	return dag, types.RecentBlocks{History: AddItem2BetaHPrime(dag, item), Mmr: belt}, nil
+	return types.RecentBlocks{History: AddItem2BetaHPrime(p.dag, item), Mmr: belt}, nil
 }
 func (p *c25FuncPath) commit(post types.RecentBlocks) { p.cur = post }
 
@@ -739,7 +749,7 @@ func c25BlockInDomain(b c25Block) bool {
 
 // c25ApplyAndCompare: one block through the path, beta-dagger and posterior beta compared with the model.
 func c25ApplyAndCompare(c *kit.Case, path c25Path, bi int, tag string, bt c25Built, next c25MState, info c25StepInfo) types.RecentBlocks {
-	dag, post, err := path.apply(bt)
+	dag := path.dagger(bt)
 	if len(dag) != len(info.dagger) {
 		c.Failf("block %d%s: beta-dagger has %d entries, model %d", bi, tag, len(dag), len(info.dagger))
 	}
@@ -749,6 +759,7 @@ func c25ApplyAndCompare(c *kit.Case, path c25Path, bi int, tag string, bt c25Bui
 	for i := range info.dagger {
 		c25CompareEntry(c, bi, i, dag[i], info.dagger[i], "beta-dagger"+tag)
 	}
+	post, err := path.finish(bt)
 	if err != nil {
 		c.Failf("block %d%s: transition returned an error: %v", bi, tag, err)
 	}
